@@ -53,7 +53,7 @@ def tag_of(nm, idx, d0) -> str:
     if idx is not None:
         return f"{nm}.{idx}"
     if isinstance(d0, (list, tuple)) and len(d0) == 3 and d0[0] == "J" and "." in d0[1]:
-        return f"{nm}.{d0[1].split('.', 1)[1]}"
+        return f"{nm}.{d0[1].split('@')[0].split('.', 1)[1]}"
     return nm
 
 
@@ -65,20 +65,7 @@ def _log(ctl: str, line: str):
         os.close(fd)
 
 
-def body(nm, ctl, mode, idx, inherit, deps, emit=None):
-    tag = tag_of(nm, idx, deps[0] if inherit else None)
-    # a "lister" node (emit = m) returns a list of m values, over which a successor splits at run time (m may be 0)
-    value = list(range(emit)) if emit is not None else ["J", tag, [d for d in deps if d is not None]]
-    if not ctl:  # free-running mode (plain cf / debug workers, C17): no gates, no log
-        return value
-    if mode.startswith("log:"):  # no gates: log start/end, fail if listed (debug worker, C15 sync)
-        _log(ctl, f"S {tag} {os.getpid()}")
-        if tag in mode[4:].split(","):
-            _log(ctl, f"E {tag} err")
-            raise ValueError(f"body {tag} fails as scheduled")
-        _log(ctl, f"E {tag} ok")
-        return value
-    _log(ctl, f"S {tag} {os.getpid()}")
+def _wait_token(ctl, tag) -> str:
     tok = os.path.join(ctl, tag + ".finish")
     abort = os.path.join(ctl, "ABORT")
     t0 = time.time()
@@ -88,7 +75,43 @@ def body(nm, ctl, mode, idx, inherit, deps, emit=None):
             raise TimeoutError(f"body {tag}: no finish token (schedule player gave up)")
         time.sleep(0.004)
     with open(tok) as f:
-        what = f.read().strip()
+        return f.read().strip()
+
+
+def body(nm, ctl, mode, idx, inherit, deps, emit=None):
+    tag = tag_of(nm, idx, deps[0] if inherit else None)
+    # a "lister" node (emit = m) returns a list of m values, over which a successor splits at run time (m may be 0)
+    value = list(range(emit)) if emit is not None else ["J", tag, [d for d in deps if d is not None]]
+    if not ctl:  # free-running mode (plain cf / debug workers, C17): no gates, no log
+        return value
+    if mode == "x":
+        # two-pass cases (pre-existing results): what the body does is EXTERNAL STATE, read when it runs - the
+        # generation stamped into the value, the failing bodies, gated or not - so that the checksums of the jobs do
+        # not change between the submissions while their values do
+        import json
+
+        with open(os.path.join(ctl, "cfg.json")) as f:
+            cfg = json.load(f)
+        if emit is None:
+            value = ["J", f"{tag}@{cfg['gen']}", [d for d in deps if d is not None]]
+        _log(ctl, f"S {tag} {os.getpid()}")
+        if cfg.get("gate"):
+            what = _wait_token(ctl, tag)
+        else:
+            what = "err" if tag in cfg.get("fail", []) else "ok"
+        _log(ctl, f"E {tag} {what}")
+        if what == "err":
+            raise ValueError(f"body {tag} fails as scheduled")
+        return value
+    if mode.startswith("log:"):  # no gates: log start/end, fail if listed (debug worker, C15 sync)
+        _log(ctl, f"S {tag} {os.getpid()}")
+        if tag in mode[4:].split(","):
+            _log(ctl, f"E {tag} err")
+            raise ValueError(f"body {tag} fails as scheduled")
+        _log(ctl, f"E {tag} ok")
+        return value
+    _log(ctl, f"S {tag} {os.getpid()}")
+    what = _wait_token(ctl, tag)
     _log(ctl, f"E {tag} {what}")
     if what == "err":
         raise ValueError(f"body {tag} fails as scheduled")
@@ -165,6 +188,8 @@ class Control:
         self.ticks = 0
         self.livelock = False
         self.racer = None
+        self.rerun = False
+        self.hit: dict[str, bool] = {}  # tag -> Job.run will return the cached result without executing anything
 
     # ---- used by worker / observer (same thread, same loop)
     def ev(self, *rec):
@@ -274,6 +299,12 @@ class VerifWorker(ConcurrentFuturesWorker):
         c = CONTROL
         tag = job_tag(job)
         c.tag_of_ck[job.checksum] = tag
+        if not rerun:
+            # pre-existing successful result (second submission over a populated cache / readonly cache): a cache hit
+            from pydra.engine.result import load_result
+
+            r0 = load_result(job.checksum, job.all_caches)
+            c.hit[tag] = r0 is not None and not r0.errored
         c.ev("D", tag)
         await c.gate(c.start_gate, tag)
         mode = c.mode.get(tag)
